@@ -860,7 +860,7 @@ class Prov:
             return ('xf', STRING_XF[meth], recv)
         if meth in ('first', 'last') and not p.startswith(('std::collections', 'alloc::collections')):
             return ('sel', meth, recv)
-        if meth in ('get', 'nth', 'get_mut') and not p.startswith(('std::collections', 'alloc::collections')) and argn:
+        if meth in ('get', 'nth', 'get_mut') and argn:
             return ('sel', meth, recv, ev(argn[0]))
         if meth in CLOSURE_RESULT_METHODS and argn:
             clo = ev(argn[-1])
